@@ -785,7 +785,7 @@ def run(ctx):
         if c["ks"]:
             cases.append(c)
     quick = ctx.quick
-    ngen = 1200 if quick else 6000
+    ngen = 900 if quick else 6000
     nmax = 60 if quick else 120
     # exhaustive tiny part: every multiset of <= 5 points on {0,1,2} (line with multiplicities), all k
     tiny = []
@@ -803,6 +803,17 @@ def run(ctx):
     for _ in range(ngen):
         big = rng.random() < 0.15
         cases.append(gen_case(rng, nmax if big else rng.choice([5, 8, 12, 16, 24, 36])))
+    # scatter stream: small random point sets on coarse 1-D / 2-D integer lattices, every k, find_neighbors +
+    # is_knn_b only (the geometry where a too small pruning radius of the cover tree shows, about 1 case in 8000)
+    for _ in range(1200 if quick else 40000):
+        n = rng.randint(4, 9)
+        r = rng.choice([8, 12, 20, 40])
+        if rng.random() < 0.5:
+            P = [[rng.randint(0, r)] for _ in range(n)]
+        else:
+            P = [[rng.randint(0, r // 2), rng.randint(0, r // 2)] for _ in range(n)]
+        c = make_case(rng, "scatter", "D", n, None, l1(P), "scatter", full_ks=True, structural=False)
+        cases.append(c)
     if not quick:
         for n in (400, 1000, 2000):
             side = int(math.isqrt(n))
